@@ -38,8 +38,6 @@ import (
 	"sync"
 	"sync/atomic"
 	"time"
-
-	"verifharness/shot"
 )
 
 var (
@@ -76,7 +74,7 @@ func selfSigned() tls.Certificate {
 // HTTP/1.1 over TLS); the same reading as harness/shot's TLS target.
 func c19ScriptHandler(w http.ResponseWriter, r *http.Request) {
 	_, _ = io.Copy(io.Discard, r.Body)
-	sc, err := shot.ParseScript(r.Header.Get("X-Script"))
+	sc, err := c19ParseScript(r.Header.Get("X-Script"))
 	if err != nil {
 		w.WriteHeader(500)
 		return
